@@ -93,3 +93,8 @@ CLAIMS["C17"] = (
     "Generated mdoc grammars (small/large decimals, negatives, multi-token text, unsorted tilts) with sort/remove histories and write/re-read; tilt, dose, mdoc-dose, gctf and ctffind4 loaders against the numbers in harness-written files; STOPGAP and EM wedge lists for 1..5 tomograms with per-tomogram dimensions/z-shifts/defocus/dose against a per-row model. Held on everything explored.",
     "mdoc values without '='; distinct tilt angles; ascending tilt files for wedge lists; float32 tolerance for float32 loaders.",
 )
+CLAIMS["C14"] = (
+    "property-based test with exact voxel-permutation oracle for the 24 cube rotations (all interior voxels), centre-of-mass/NCC relations for random rotations, brute-force window and stamping models, and an independent map_coordinates reference for C_n symmetrisation",
+    "Generated boxes (odd/even/non-cubic) x cube rotations in three call forms; smooth blobs under random rotations; windows inside/straddling/outside; particle lists stamped with exact (cube) and random rotations, overlapping, clipped, coloured by three fields, with non-default row labels; n = 2..12 symmetrisation in three spellings. Thorough enumerates all 24 rotations x 12 box shapes. Held on everything explored.",
+    "Input face voxels excluded from the exact check (as the property states); even cubic templates with a one-voxel margin; integer complete positions.",
+)
